@@ -28,7 +28,10 @@ CLAIM = dict(
           "left (C03_chains_every_tree, C03_chains_tokens); WHOLE PROGRAMS of expression statements, 输出, 令, 每当 and 如果 / 再如 / 否则 with "
           "blocks nested to any depth, printed one statement per line with four spaces per level, compile to exactly the prescribed tree, "
           "line table and indentation type — statement nesting from indentation, dedents closing several blocks, 再如 / 否则 attaching to the "
-          "如果 of their own indentation (C03_statements_every_program, token level C03_block_tokens); more fuel never changes an answer (C03_fuel_monotone). C03_complete: every tree the executable model of the "
+          "如果 of their own indentation (C03_statements_every_program, token level C03_block_tokens); LAYOUT INVARIANCE for these programs: any two "
+          "layouts — TAB or four-space indentation, LF / CR / CRLF / LFCR before each line, blank lines (empty or of whole indentation units), "
+          "trailing line ends — give the same, prescribed tree, with the line table and indentation type of each (C03_layout_invariance, "
+          "C03_layout_tree_lines_indent); more fuel never changes an answer (C03_fuel_monotone). C03_complete: every tree the executable model of the "
           "front end (pkg/syntax lexer driver + pkg/syntax/zh parser: token buffer with stmtCompleteFlag, tryConsume, "
           "meetStmtLineBreak, blockIndent, all Parse* productions, with the repairs fixes/C03-1..4, C05-1, C05-3, C13-1) returns is "
           "complete - every construct has all parts the grammar requires - for ALL sources and fuel values, by induction over "
@@ -41,7 +44,7 @@ CLAIM = dict(
           "outcome (tree + line table, or error code + cursor) must equal the implementation's on these inputs."),
     note=TB + ("proved: completeness of every returned tree (all inputs); the round trip compile(print e) = e for operator expressions under "
                "every spacing. NOT proved, covered by the correspondence run only: the round trip for the other statement kinds (遍历, definitions, 抛出, 导入 …), method calls (以…（…）), 其-rooted chains, "
-               "dictionary literals, program sections and layouts other than the canonical one (TAB indentation, CR / CRLF, blank lines, comments), comma / bracket-line-break / comment invariance as theorems. "
+               "dictionary literals, program sections, and the layout dimensions not in the proved family (comments, leading blank lines, extra spaces inside lines for statements), comma / bracket-line-break / comment invariance as theorems. "
                "The token recognisers are the C04 model (vendored as model/LexerTok.v), string literals the C13 model."),
     technique="Coq proof (induction over fuel and productions) + model/implementation correspondence by vm_compute + differential generation",
     design="5/C03")
